@@ -7,6 +7,7 @@ let () =
   | _ :: "uri" :: _ -> L_uri.run ()
   | _ :: "cast" :: _ -> L_cast.run ()
   | _ :: "cycles" :: _ -> L_cycles.run ()
+  | _ :: "resolve" :: _ -> L_resolve.run ()
   | _ ->
       prerr_endline "usage: oalmodel <layer>";
       exit 2
